@@ -272,7 +272,7 @@ theorem cfgAtx_of_B (cfg : MdCfg) (h : atxOkB cfg = true) : CfgAtx cfg := by
 theorem coreCfgs_atx : ∀ n ∈ coreNames, (findCfg n).any atxOkB = true := by decide +kernel
 
 /-- **C05 for the core configurations of the concrete model, no hypothesis left**: every token tree `parseDoc`
-returns for the six plugin-free configurations (`coreNames`) is in the grammar (nesting clause included) -/
+returns for the configurations of `coreNames` (plugin-free, or with covered plugins only) is in the grammar (nesting clause included) -/
 theorem parseDoc_wf_core (n : String) (hn : n ∈ coreNames) (cfg : MdCfg) (hc : findCfg n = some cfg) (s : Str)
     (toks : List Json) (h : parseDoc cfg s = .ok toks) : wfSeq (wfFuel cfg) toks .block 0 cfg.maxNested = true := by
   have h1 := coreCfgs_ok n hn
